@@ -100,6 +100,23 @@ theorem WFList_head_ok : ∀ {b : Piece} {t : List Piece}, WFList (b :: t) → b
   | _, [], h => h
   | _, _ :: _, h => h.1
 
+theorem identLike_of_B {w : Str} (h : identLikeB w = true) : identLike w := by
+  cases w with
+  | nil => simp [identLikeB] at h
+  | cons c t =>
+    simp only [identLikeB, Bool.and_eq_true, List.all_eq_true] at h
+    exact ⟨h.1, h.2⟩
+
+theorem identLike_append {p i : Str} (hp : identLike p) (hi : ∀ c ∈ i, isIdCont c = true) : identLike (p ++ i) := by
+  cases p with
+  | nil => exact absurd hp (by simp [identLike])
+  | cons h tl =>
+    refine ⟨hp.1, ?_⟩
+    intro c hc
+    rcases List.mem_append.mp hc with hc | hc
+    · exact hp.2 c hc
+    · exact hi c hc
+
 /-! ### one step of the tokenizer per kind of piece -/
 
 theorem lex_sp (f : Nat) (R : Str) : lexToks (f + 1) (32 :: R) = lexToks f R := by
@@ -149,6 +166,26 @@ theorem lex_int (f : Nat) (d R : Str) (ts : List Tok)
     have hq : ¬ (c = 39 ∨ c = 34) := by omega
     have hrun := takeWhile_run isIdCont t R (fun x hx => (digit_facts (hd.2 x hx)).2.2.2.2.2.2) hR
     simp [lexToks, h1, h2, h3, hq, h6, hd.1, hrun.1, hrun.2, h]
+
+/-! ### literal sequences of keys -/
+
+theorem keySeqTail_wf (close : Nat) (hc : isOpChar close = true) :
+    ∀ (ks : List Str) (k : Str), Str.WF k → (∀ x ∈ ks, Str.WF x) → WFList (Piece.key k :: keySeqTail close ks) := by
+  intro ks
+  induction ks with
+  | nil => intro k hk _; exact ⟨hk, rfl, hc⟩
+  | cons k' t ih =>
+    intro k hk hall
+    have hk' : Str.WF k' := hall k' (by simp)
+    have := ih k' hk' (fun x hx => hall x (List.mem_cons_of_mem _ hx))
+    exact ⟨hk, rfl, (by decide : isOpChar 44 = true), rfl, trivial, rfl, this⟩
+
+theorem keySeqTail_toks (close : Nat) : ∀ (ks : List Str),
+    (keySeqTail close ks).filterMap Piece.toTok = ks.flatMap (fun k' => [Tok.op 44, Tok.str k']) ++ [Tok.op close] := by
+  intro ks
+  induction ks with
+  | nil => rfl
+  | cons k t ih => simp [keySeqTail, Piece.toTok, List.filterMap_cons, ih]
 
 /-! ### skeleton of the tokens of a piece list -/
 
